@@ -238,7 +238,7 @@ def lowprec_patch(rule, p, g=None, omega=None):
     return Patch([])
 
 
-def run_count(blt, opts, budget=10, want_ballots=True, lowprec=None, keepE=False, iters=False):
+def run_count(blt, opts, budget=10, want_ballots=True, lowprec=None, keepE=False, iters=False, profile=None):
     """
     Run Election(ElectionProfile(data=blt), opts).count() and return a trace dict with
     exact numbers (ints / Fractions).  'lowprec' = (p, g, omega) for the reduced-precision
@@ -253,7 +253,7 @@ def run_count(blt, opts, budget=10, want_ballots=True, lowprec=None, keepE=False
     saved_div = None
     try:
         with patch:
-            p = ElectionProfile(data=blt)
+            p = ElectionProfile(data=blt) if profile is None else profile
             E = Election(p, dict(opts))
             rule = E.rule.name if hasattr(E.rule, 'name') and E.rule.name else opts.get('rule')
             T['rule'] = rule
